@@ -85,10 +85,14 @@ type veEnv struct {
 	txRanges  map[string][][2]int64
 	frozen    bool
 	freezeAt  int // freeze (sender crash) when the event counter reaches this (0 = never)
+	freezeAfterTx int // > 0: freeze at the k-th event counted from the first "txret" (k = 1: at that answer)
 	crashed   chan bool
 	block     chan bool
 	stopAt    int // send the stop signal when the event counter reaches this (0 = at quiescence)
+	stopAfterTx int // > 0: stop at the k-th event counted from the first answer to a data request
+	stopAtPoll  bool // stop while the first poll answer is on its way back
 	stopFn    func()
+	stopSeen  func() bool
 	badRemove int
 	removes   []string
 	sentEarly int
@@ -111,6 +115,11 @@ func (e *veEnv) ev(kind, name, info string) {
 	}
 	e.events = append(e.events, veEvent{len(e.events) + 1, kind, name, info})
 	n := len(e.events)
+	if e.freezeAfterTx > 0 && kind == "txret" {
+		// the crash point is given relative to the first answer that came back
+		e.freezeAt = n + e.freezeAfterTx - 1
+		e.freezeAfterTx = 0
+	}
 	if e.freezeAt > 0 && n == e.freezeAt {
 		e.frozen = true
 		if e.ctl != nil {
@@ -120,11 +129,28 @@ func (e *veEnv) ev(kind, name, info string) {
 		e.crashed <- true
 		<-e.block
 	}
+	if e.stopAfterTx > 0 && kind == "txret" {
+		e.stopAt = n + e.stopAfterTx - 1
+		e.stopAfterTx = 0
+	}
+	if e.stopAtPoll && kind == "poll" && name == "ok" {
+		// the stop request arrives while the answer to a poll is on its way back
+		e.stopAt = n
+		e.stopAtPoll = false
+	}
 	stop := e.stopAt > 0 && n == e.stopAt && e.stopFn != nil
 	fn := e.stopFn
+	seen := e.stopSeen
 	e.mu.Unlock()
 	if stop {
-		go fn()
+		// the request is made here and the call that recorded this event returns only once the
+		// sender has taken notice of it: the stop arrives DURING this interface call
+		fn()
+		if seen != nil {
+			for i := 0; i < 200 && !seen(); i++ {
+				time.Sleep(500 * time.Microsecond)
+			}
+		}
 	}
 }
 
@@ -246,6 +272,22 @@ func (e *veEnv) transmit(p sts.Payload) (int, error) {
 	if !e.st.Ready() {
 		e.ev("txret", "err", "not ready")
 		return 0, errors.New("503")
+	}
+	if f.kind == "swallow" {
+		// something between sender and receiver answered 200 without passing the payload on
+		enc := p.GetEncoder()
+		for _, part := range parts {
+			w := e.wire(part)
+			buf := make([]byte, w.end-w.beg)
+			io.ReadFull(enc, buf)
+			e.mu.Lock()
+			e.sentBytes[w.name] += w.end - w.beg
+			e.mu.Unlock()
+		}
+		enc.Close()
+		e.ackHead(parts, len(parts)) // the sender WAS told that everything arrived
+		e.ev("txret", "ok", fmt.Sprintf("%d (swallowed)", len(parts)))
+		return len(parts), nil
 	}
 	var binned []sts.Binned
 	for _, part := range parts {
@@ -422,6 +464,10 @@ type veScenario struct {
 	crashAt   int
 	reuse     bool   // after the first delivery a file is created anew under a used name
 	mutate    string // name of a file rewritten while queued
+	stopAfterTx   int  // stop at the k-th interface event counted from the first answer to a data request
+	stopAtPoll    bool // stop while the first poll answer is on its way back
+	crashAfterTx  int  // crash at the k-th interface event counted from the first answer to a data request
+	goneWhileDown bool // crash profiles: one unfinished source file is removed while the sender is down
 	swap      string // name of a file replaced by a same-size version (mtime in the same second) right after its last byte was received
 	scanDelay time.Duration
 	include   string
@@ -497,7 +543,7 @@ func veRun(tmp string, sc veScenario) string {
 		acked: map[string]int64{}, sentBytes: map[string]int64{}, txRanges: map[string][][2]int64{},
 		crashed: make(chan bool, 1), block: make(chan bool),
 		faults: append([]veFault{}, sc.faults...), pollFault: append([]string{}, sc.pollFault...),
-		freezeAt: sc.crashAt, stopAt: sc.stopAt}
+		freezeAt: sc.crashAt, freezeAfterTx: sc.crashAfterTx, stopAt: sc.stopAt, stopAfterTx: sc.stopAfterTx, stopAtPoll: sc.stopAtPoll}
 	for _, d := range []string{e.out, e.cacheDir, e.stageDir, e.finalDir} {
 		os.MkdirAll(d, 0o755)
 	}
@@ -569,6 +615,7 @@ func veRun(tmp string, sc veScenario) string {
 		stopOnce.Do(func() { stopSent = time.Now(); stop <- graceful })
 	}
 	e.stopFn = func() { sendStop(sc.stopKind != "now") }
+	e.stopSeen = broker.shouldStop
 	go broker.Start(stop, done)
 
 	eligible := map[string]veFileSpec{}
@@ -694,17 +741,65 @@ func veRun(tmp string, sc veScenario) string {
 		if b, err := e.st.Scan("1"); err == nil {
 			if ps, err := stage.ReadCompanions(bytes.NewReader(b)); err == nil {
 				for _, p := range ps {
+					// what the receiver holds of a file that FAILED validation has to be sent again
+					if e.st.GetFileStatus(p.Name, time.Now().Add(-time.Hour)) == sts.ConfirmFailed {
+						continue
+					}
 					for _, r := range p.Parts {
 						heldAtRestart[p.Name] = append(heldAtRestart[p.Name], [2]int64{r.Beg, r.End})
 					}
 				}
 			}
 		}
+		{
+			var hn []string
+			for k := range heldAtRestart {
+				hn = append(hn, k)
+			}
+			sort.Strings(hn)
+			var sn []string
+			filepath.Walk(e.stageDir, func(p string, info os.FileInfo, err error) error {
+				if err == nil && !info.IsDir() {
+					rel, _ := filepath.Rel(e.stageDir, p)
+					sn = append(sn, rel)
+				}
+				return nil
+			})
+			facts["listed_at_restart"] = "[" + strings.Join(hn, ",") + "]"
+			facts["staged_at_restart"] = "[" + strings.Join(sn, ",") + "]"
+		}
+		if sc.goneWhileDown {
+			// one source file that is not released yet disappears while the sender is down
+			var cands []string
+			for name := range eligible {
+				if _, err := os.Stat(filepath.Join(e.out, name)); err == nil {
+					if c := broker.Conf.Cache.Get(name); c == nil || !c.IsDone() {
+						cands = append(cands, name)
+					}
+				}
+			}
+			sort.Strings(cands)
+			if len(cands) > 1 {
+				// prefer the one with the fewest bytes on the wire so far
+				best := cands[0]
+				for _, n := range cands {
+					if bytesBeforeRestart[n] < bytesBeforeRestart[best] {
+						best = n
+					}
+				}
+				os.Remove(filepath.Join(e.out, best))
+				delete(eligible, best)
+				facts["gone_while_down"] = best
+			}
+		}
 		e2 := *e
 		e2.mu = sync.Mutex{}
 		e2.frozen = false
 		e2.freezeAt = 0
+		e2.freezeAfterTx = 0
 		e2.stopAt = 0
+		e2.stopAfterTx = 0
+		e2.stopAtPoll = false
 		e2.events = nil
 		e2.faults = nil
 		e2.pollFault = nil
@@ -773,6 +868,53 @@ func veRun(tmp string, sc veScenario) string {
 	facts["restarted"] = fmt.Sprint(restarted)
 	facts["bad_removes"] = fmt.Sprint(e.badRemove)
 	facts["removes"] = fmt.Sprint(len(e.removes))
+	// protocol view (C02): a source file is released only after a positive answer to a poll made
+	// after the last transmission that carried a part of it
+	{
+		lastTx := map[string]int{}
+		lastPos := map[string]int{}
+		unconfirmed := 0
+		confirmedNames := map[string]bool{}
+		for _, ev := range e.events {
+			switch ev.kind {
+			case "tx":
+				for _, d := range strings.Fields(ev.info) {
+					if i := strings.LastIndex(d, "["); i > 0 {
+						lastTx[d[:i]] = ev.seq
+					}
+				}
+			case "poll":
+				if ev.name == "ok" {
+					for _, d := range strings.Fields(ev.info) {
+						if i := strings.LastIndex(d, "="); i > 0 && (d[i+1:] == "2" || d[i+1:] == "3") {
+							lastPos[d[:i]] = ev.seq
+							confirmedNames[d[:i]] = true
+						}
+					}
+				}
+			case "remove":
+				// info = hash:held:version...; an empty hash = the file was already gone
+				if !strings.HasPrefix(ev.info, ":") {
+					if lp, ok := lastPos[ev.name]; !ok || lp < lastTx[ev.name] {
+						unconfirmed++
+					}
+				}
+			}
+		}
+		facts["released_without_positive_answer"] = fmt.Sprint(unconfirmed)
+		// C16: nothing that was confirmed is left unrecorded in the queue cache when the sender has exited
+		unrecorded := 0
+		if finished && !restarted && sc.mutate == "" && sc.swap == "" && !sc.reuse {
+			for name := range confirmedNames {
+				c := broker.Conf.Cache.Get(name)
+				_, statErr := os.Stat(filepath.Join(e.out, name))
+				if c != nil && !c.IsDone() && statErr == nil {
+					unrecorded++
+				}
+			}
+		}
+		facts["confirmed_left_unrecorded"] = fmt.Sprint(unrecorded)
+	}
 	facts["sent_before_all_acked"] = fmt.Sprint(e.sentEarly)
 	facts["tx_calls"] = fmt.Sprint(e.txCalls)
 	facts["source_read_errors"] = fmt.Sprint(e.vanished)
@@ -828,13 +970,27 @@ func veRun(tmp string, sc veScenario) string {
 	})
 	facts["alien_final"] = fmt.Sprint(alien)
 	staged := 0
+	var stagedNames []string
 	filepath.Walk(e.stageDir, func(p string, info os.FileInfo, err error) error {
 		if err == nil && !info.IsDir() {
+			rel, _ := filepath.Rel(e.stageDir, p)
+			// a stray partial / companion left by a late duplicate part of a file that IS delivered
+			// (it is cleaned after a day) is not an undelivered file
+			base := strings.TrimSuffix(rel, filepath.Ext(rel))
+			if f, ok := eligible[base]; ok && (filepath.Ext(rel) == ".part" || filepath.Ext(rel) == ".cmp") {
+				if b, err := os.ReadFile(filepath.Join(e.finalDir, base)); err == nil && veMD5(b) == veMD5(veContent(f, ver(base))) {
+					return nil
+				}
+			}
 			staged++
+			stagedNames = append(stagedNames, rel)
 		}
 		return nil
 	})
 	facts["staged_left"] = fmt.Sprint(staged)
+	if staged > 0 {
+		facts["staged_names"] = strings.Join(stagedNames, ",")
+	}
 
 	if d := os.Getenv("VERIF_E2E_DEBUG"); d == sc.id || d == "all" {
 		var db strings.Builder
@@ -902,6 +1058,14 @@ func veGen(r *gen.Rand, id string, profile string) veScenario {
 	case "stop":
 		sc.stopKind = []string{"graceful", "now"}[r.Intn(2)]
 		sc.stopAt = r.Intn(40) // 0 = immediately after start
+		switch r.Intn(3) {
+		case 1: // relative to the first answer: the stretch in which files are tracked, logged, polled, released
+			sc.stopAt = 100000
+			sc.stopAfterTx = 1 + r.Intn(14)
+		case 2:
+			sc.stopAt = 100000
+			sc.stopAtPoll = true
+		}
 		if r.Chance(1, 3) {
 			sc.faults = append(sc.faults, veFault{kind: kinds[r.Intn(len(kinds))], at: r.Intn(2)})
 		}
@@ -920,6 +1084,37 @@ func veGen(r *gen.Rand, id string, profile string) veScenario {
 			sc.faults = append(sc.faults, veFault{kind: "corrupt", at: 0})
 		}
 		sc.pollFault = []string{"slow"}
+	case "pollnone":
+		// the first requests are swallowed on the way (answered 200, never reach the receiver): the
+		// receiver answers "unknown" poll after poll; nothing may be released, everything is sent again
+		for i := 0; i < 1+r.Intn(3); i++ {
+			sc.faults = append(sc.faults, veFault{kind: "swallow"})
+		}
+		sc.del = r.Chance(3, 4)
+	case "crashfail":
+		// every file in one payload whose first part is corrupted (that file fails validation), and the
+		// sender dies around the time the answer comes back, before it has polled
+		sc.payload, sc.chunk = 1000, 1000
+		sc.faults = []veFault{{kind: "corrupt", at: 0}}
+		sc.crashAt = 100000 // (armed: the cache writes of the old instance stop too)
+		sc.crashAfterTx = 1 + r.Intn(3)
+	case "crashgone":
+		// two files; the sender dies early in the transfer; while it is down one unfinished source
+		// file is removed
+		for len(sc.files) > 2 {
+			sc.files = sc.files[:len(sc.files)-1]
+		}
+		for _, n := range names {
+			if len(sc.files) < 2 && !used[n] {
+				used[n] = true
+				sc.files = append(sc.files, veFileSpec{name: n, size: 60 + r.Intn(90), seedb: byte(1 + r.Intn(200)), age: time.Duration(2+r.Intn(50)) * time.Second, eligible: true})
+			}
+		}
+		sc.payload = int64(20 + r.Intn(20))
+		sc.chunk = sc.payload
+		sc.crashAt = 100000
+		sc.crashAfterTx = 1 + r.Intn(4)
+		sc.goneWhileDown = true
 	case "crash":
 		sc.crashAt = 1 + r.Intn(45)
 		if r.Chance(1, 3) {
@@ -981,7 +1176,7 @@ func TestVerifE2E(t *testing.T) {
 	}
 	profiles := strings.Split(os.Getenv("VERIF_E2E_PROFILES"), ",")
 	if os.Getenv("VERIF_E2E_PROFILES") == "" {
-		profiles = []string{"plain", "faults", "stop", "crash", "reuse", "mutate", "vanish", "eligible", "swap", "stopfail"}
+		profiles = []string{"plain", "faults", "stop", "crash", "reuse", "mutate", "vanish", "eligible", "swap", "stopfail", "pollnone", "crashfail", "crashgone"}
 	}
 	N := gen.EnvInt("VERIF_E2E_N", 12)
 	if gen.Thorough() {
